@@ -110,7 +110,12 @@ func (s *Server) handleService(ctx context.Context, sc *uasc.SecureChannel, reqI
 
 	typeID := ua.ServiceTypeID(req)
 	h, ok := s.handlers[typeID]
-	if ok {
+	if ok && requiresSession(typeID) {
+		err = s.checkSession(req)
+	}
+	if err != nil {
+		// refused below without calling the handler
+	} else if ok {
 		resp, err = h(sc, req, reqID)
 	} else {
 		if typeID == 0 {
@@ -139,6 +144,38 @@ func (s *Server) handleService(ctx context.Context, sc *uasc.SecureChannel, reqI
 			s.cfg.logger.Warn("Error sending response: %s\n", err)
 		}
 	}
+}
+
+// requiresSession reports whether a service may only be called with the
+// authentication token of an activated session (Part 4, 5.6). Discovery and
+// the session establishment services themselves are exempt.
+func requiresSession(typeID uint16) bool {
+	switch typeID {
+	case id.FindServersRequest_Encoding_DefaultBinary,
+		id.FindServersOnNetworkRequest_Encoding_DefaultBinary,
+		id.GetEndpointsRequest_Encoding_DefaultBinary,
+		id.RegisterServerRequest_Encoding_DefaultBinary,
+		id.RegisterServer2Request_Encoding_DefaultBinary,
+		id.CreateSessionRequest_Encoding_DefaultBinary,
+		id.ActivateSessionRequest_Encoding_DefaultBinary:
+		return false
+	}
+	return true
+}
+
+func (s *Server) checkSession(req ua.Request) error {
+	hdr := req.Header()
+	if hdr == nil || hdr.AuthenticationToken == nil {
+		return ua.StatusBadSessionIDInvalid
+	}
+	sess := s.sb.Session(hdr.AuthenticationToken)
+	if sess == nil {
+		return ua.StatusBadSessionIDInvalid
+	}
+	if !sess.activated {
+		return ua.StatusBadSessionNotActivated
+	}
+	return nil
 }
 
 func responseHeader(reqID uint32, statusCode ua.StatusCode) *ua.ResponseHeader {
